@@ -643,10 +643,11 @@ def directed_cases():
         # F-C15-2: use returned, the workspace link is not created yet, another project cleans
         ("gc-between-use-and-link", [F(_inst(100, 1)),
                                      S([_use(0, 1, True), _gc()], [(0, ("symlink",)), (1, "done"), (0, "done")])]),
-        # policy: oldest unused first, stop exactly when the quota is met (sizes 26, 19, 12; quota = total - 19)
-        ("policy-oldest-first-until-quota", [F(_inst(100, 3)), F(_inst(101, 2)), F(_inst(102, 1)), F(_use(3, 3)),
-                                             F(_use(0, 1, True)), F(_gc(False, False, True, 38)), F(_gc(False, False, False, 38)),
-                                             F(_gc(False, True, False, 38))]),
+        # policy: oldest unused first (age order 3,1,2 differs from size order 12,19,26), stop exactly when the quota is
+        # met (31 = 57 - 26, then 19 = 31 - 12); the second use of package 2 by the same workspace only refreshes its mtime
+        ("policy-oldest-first-until-quota", [F(_inst(100, 3)), F(_inst(101, 2)), F(_inst(102, 1)), F(_use(3, 2)), F(_use(3, 1)),
+                                             F(_use(3, 2)), F(_gc(False, False, True, 31)), F(_gc(False, False, False, 31)),
+                                             F(_gc(False, False, False, 19)), F(_use(0, 2, True)), F(_gc(False, True, False, 19))]),
         # automatic gc at the end of an install never removes the package that was just installed
         ("auto-gc-keeps-new-package", [F(_inst(100, 1)), F(_inst(101, 2, False, 0)), F(_use(2, 2, True)),
                                        F(_inst(102, 3, False, 0))]),
